@@ -73,7 +73,7 @@ def modules_roundtrip(sym, history):
     try:
         for step, (cell, mi, cat) in enumerate(history):
             variant, arch = CELLS[cell]
-            rpms = [sym.str("rpm%d" % step, 4), "x-0:1-1.noarch"][: 1 + step % 2]
+            rpms = [sym.str("rpm%d" % step, 4), "x-0:1-1.noarch"]          # a module added twice lists this RPM twice: the list is kept as given
             m.add(variant, arch, MODULE_POOL[mi], sym.str("tag%d" % step, 4, minlen=1), sym.str("mdpath%d" % step, 4, minlen=1), CATS[cat], rpms)
         before = clone(m.modules)
         text = m.dumps()
